@@ -158,6 +158,17 @@ func crafted() []string {
 	mk(f, ft, "group:a", "member", "user")
 	mk(f, ft, "group:a", "member", "team#member")
 	mk(f, ft, "group:a", "member", "group#member")
+	// depth bookkeeping: a chain of three dispatches, expanded with depth limits 2, 3 and 4 (`>=` vs `>`)
+	g := &fga.Model{Types: []*fga.TypeDef{{Name: "user"},
+		{Name: "group", Rels: []*fga.RelDef{rel("member", this(), u, fga.Restr{Typ: "group", Rel: "member"})}}}}
+	gt := []fga.Tuple{t("group:a", "member", "group:b#member"), t("group:b", "member", "group:c#member"), t("group:c", "member", "user:x")}
+	gts, err := typesystem.NewAndValidate(context.Background(), g.Proto(fgarun.ModelID))
+	if err != nil {
+		panic(err)
+	}
+	for _, d := range []int{2, 3, 4} {
+		out = append(out, caseLine(g, gts, d, gt, nil, "group:a", "member", "user", nil))
+	}
 	return out
 }
 
